@@ -244,6 +244,53 @@ func (c18) Gen(tier string, seed int64, emit func([]Ev)) {
 		}
 		emit([]Ev{{"op": "readfrom", "adapter": ad, "script": script, "fail_at": failAt, "via": via, "zero_reads": zero, "fail_kind": kind, "wfail_kind": c18WFailKinds[r.Intn(2)*r.Intn(len(c18WFailKinds))], "wfail_n": []int{0, 0, 57, 188}[r.Intn(4)]}})
 	}
+	// long streams (hundreds of packets, more than any internal buffer of 64 KiB) handed over in large and uneven pieces
+	nlong := 6
+	if tier == "thorough" {
+		nlong = 40
+	}
+	for i := 0; i < nlong; i++ {
+		npk := []int{349, 400, 700, 1100}[r.Intn(4)]
+		data := c18Stream(r, npk*188+[]int{0, 0, 0, 57}[r.Intn(4)])
+		var sizes []int
+		switch i % 6 {
+		case 0:
+			sizes = []int{65400, 1000}
+		case 1:
+			sizes = []int{65536 - 100, 3000}
+		case 2:
+			sizes = []int{4096}
+		case 3:
+			sizes = []int{65535, 1, 65537, 7}
+		case 4:
+			sizes = []int{32769, 32767, 5}
+		}
+		script := []Ev{}
+		rest := data
+		for k := 0; len(rest) > 0; k++ {
+			n := 1 + r.Intn(70000)
+			if len(sizes) > 0 {
+				n = sizes[minInt(k, len(sizes)-1)]
+				if k >= len(sizes) && len(sizes) > 2 {
+					n = sizes[k%len(sizes)]
+				}
+			}
+			if n > len(rest) {
+				n = len(rest)
+			}
+			script = append(script, Ev{"data": B(rest[:n]), "err": "nil"})
+			rest = rest[n:]
+		}
+		failAt := 0
+		if i%4 == 3 {
+			failAt = []int{348, 349, 350, 1}[r.Intn(4)]
+		}
+		ad := c18Adapters[i%4]
+		emit([]Ev{{"op": "readfrom", "adapter": ad, "script": script, "fail_at": failAt, "via": "direct", "zero_reads": false, "fail_kind": "sentinel", "wfail_kind": "sentinel", "wfail_n": 0}})
+		if i%3 == 0 {
+			emit([]Ev{{"op": "write", "adapter": ad, "data": B(data[:npk*188]), "fail_at": failAt, "wfail_kind": "sentinel", "wfail_n": 0}})
+		}
+	}
 }
 
 func c18Err(err error, fail ...error) string {
